@@ -942,21 +942,120 @@ def r7_cast_targets_keep_the_reported_byte_order(repo=None):
     return r
 
 
+def r8_index_row_follows_the_layout(repo=None):
+    """Where the samples of a continuing write land in the open file is decided by the file's layout: a data set that grows
+    (sized by the samples written so far: the chunked layout) takes them at its end, a data set sized for the whole file takes
+    them at the slot of their index.  In the growing layout the *index row* of the write is the only record of the sample index
+    its data starts at - so the test that gives a continuing write its row must be made on the same flag as the test that sizes the
+    data set (sibling agreement between digital_rf_create_hdf5_file and both passes of digital_rf_create_rf_data_index)."""
+    from . import c07
+    r = Rule("C01.R8", "a continuing write gets its own index row exactly in the layout whose data set grows by appending (one flag, three sites)")
+    tu = cfront.lib(repo)
+    cf = tu.fn("digital_rf_create_hdf5_file")
+    rows = c07._rows_target(cf)
+    params = [p_.name for p_ in cf.children if p_.kind == "ParmVarDecl"]
+
+    def flag_of(cond):
+        """(field path, polarity) of a condition that is a writer-object field, possibly negated"""
+        e = cond.strip(casts=True)
+        pol = True
+        while e.kind == "UnaryOperator" and e.opcode == "!":
+            pol = not pol
+            e = e.children[0].strip(casts=True)
+        p_ = e.path()
+        if p_ and p_.startswith(clib.OBJ + "->"):
+            return p_, pol
+        return None
+    layout = None
+    for path, node, rhs, kind in clib.stores(cf):
+        if path != rows or kind != "=" or rhs is None:
+            continue
+        t_ = rhs.strip(casts=True)
+        if t_.kind == "ConditionalOperator":
+            # `rows = flag ? a : b`
+            fl = flag_of(t_.children[0])
+            arms = [t_.children[1].strip(casts=True).path(), t_.children[2].strip(casts=True).path()]
+            whole = [a_ in params and "max" in (a_ or "") for a_ in arms]
+            if fl is not None and whole[0] != whole[1]:
+                grows_when = fl[1] if whole[1] else not fl[1]
+                if layout is not None and layout != (fl[0], grows_when):
+                    raise AnalysisError("%s: the sizes stored into `%s` are selected inconsistently" % (cf.name, rows))
+                layout = (fl[0], grows_when)
+            continue
+        a = node.parent
+        while a is not None and a is not cf and a.kind != "IfStmt":
+            a = a.parent
+        if a is None or a.kind != "IfStmt":
+            continue
+        fl = flag_of(a.children[0])
+        if fl is None:
+            continue
+        in_then = a.children[1].begin <= node.begin <= a.children[1].end
+        v = rhs.strip(casts=True).path()
+        whole_file = v in params and "max" in (v or "")
+        # the branch that does NOT take the whole-file size is the growing layout
+        grows_when = (fl[1] if in_then else not fl[1]) if not whole_file else (not fl[1] if in_then else fl[1])
+        if layout is not None and layout != (fl[0], grows_when):
+            raise AnalysisError("%s: the sizes stored into `%s` are selected inconsistently (%s / %s)" % (cf.name, rows, layout, (fl[0], grows_when)))
+        layout = (fl[0], grows_when)
+    if layout is None:
+        raise AnalysisError("%s: the flag that selects the size of the data set (`%s`) was not recognised" % (cf.name, rows))
+    r.ok("%s:%s %s" % (C_LIB, cf.line, cf.name), "the data set grows with the writes when `%s%s`" % ("" if layout[1] else "!", layout[0]))
+    fn = tu.fn("digital_rf_create_rf_data_index")
+    fparams = [p_.name for p_ in fn.children if p_.kind == "ParmVarDecl"]
+    exists = [p_ for p_ in fparams if "exist" in p_]
+    if len(exists) != 1:
+        raise AnalysisError("%s: the parameter telling that the file is already open was not recognised" % fn.name)
+    ex = exists[0]
+    n_sites = 0
+    seen_ = set()
+    for node in fn.walk():
+        # every `!file_exists || <flag>` of the function: in a condition, or held in a local first
+        if not (node.kind == "BinaryOperator" and node.opcode == "||") or node.begin in seen_:
+            continue
+        ors = [node.children[0].strip(casts=True), node.children[1].strip(casts=True)]
+        neg_exists = [o for o in ors if o.kind == "UnaryOperator" and o.opcode == "!" and o.children[0].strip(casts=True).path() == ex]
+        other = [o for o in ors if o not in neg_exists]
+        if len(neg_exists) != 1 or len(other) != 1:
+            continue
+        seen_.add(node.begin)
+        n_sites += 1
+        fl = flag_of(other[0])
+        site = "%s:%s %s `%s`" % (C_LIB, node.line, fn.name, node.nsrc[:60])
+        if fl is None:
+            raise AnalysisError("%s: `%s` next to `!%s` is not a writer-object flag" % (fn.name, other[0].nsrc[:40], ex))
+        if fl == layout:
+            r.ok(site, "a continuing write gets its row exactly when the data set grows by appending")
+        else:
+            r.violation(C_LIB, fn.name, node.nsrc[:70], "the index row of a continuing write is decided by `%s%s`, the placement of its samples "
+                        "by `%s%s`: where the two differ (a continuous channel with compression or checksums) samples appended after a gap "
+                        "have no row saying where they start - the reader returns them at shifted indices and merges blocks across "
+                        "the gap" % ("" if fl[1] else "!", fl[0], "" if layout[1] else "!", layout[0]), line=node.line)
+    if n_sites < 1:
+        raise AnalysisError("%s: the test `!%s || <layout flag>` was not found (2 confirmed on the reference tree)" % (fn.name, ex))
+    r.guard(3)
+    return r
+
+
 def rules(repo=None):
-    return [lambda: r7_cast_targets_keep_the_reported_byte_order(repo), lambda: r1_dtype_table(repo), lambda: r2_name_format_agreement(repo), lambda: r3_exact_lookup(repo),
+    return [lambda: r8_index_row_follows_the_layout(repo), lambda: r7_cast_targets_keep_the_reported_byte_order(repo), lambda: r1_dtype_table(repo), lambda: r2_name_format_agreement(repo), lambda: r3_exact_lookup(repo),
             lambda: r4_extension_passthrough(repo), lambda: r5_interface_agreement(repo), lambda: r6_exact_index_use(repo)]
 
 
 EXPLANATION = (
-    "Seven structural necessary conditions of the round trip. R1: every row of get_hdf5_data_type agrees with its HDF5 constant "
-    "on class, width and byte order and the table is exhaustive for what DigitalRFWriter can pass. R2: regular-language "
-    "equality of the C writer's final file-name/sub-directory formats with the reader's formats, inclusion in the listing "
-    "grammar. R3: float-taint analysis of DigitalRFReader._get_file_list and its four callers (no true division, float "
-    "literal or longdouble in the lookup). R4: the extension passes PyArray_DATA/DIMS of the same array, per-block pointers "
-    "in the split loop; _cast_input_array is contiguous + casting='safe' on every path. R5: PyArg_ParseTuple units vs C "
-    "types, Python call-site argument order vs parsed variables, wrapper-to-library argument order by parameter name, "
-    "Py_BuildValue order vs unpacking. R6: the uint64 block index is only used through int(). R7: byte-order provenance of the writer's dtype attributes: every dtype the input is cast to on the way to the extension carries the byte order that is reported to the library (a complex type built from a format string is native). Does NOT decide block "
-    "cutting / offset arithmetic or the merge of blocks.")
+    'Seven structural necessary conditions of the round trip. R1: every row of get_hdf5_data_type agrees with its HDF5 '
+    'constant on class, width and byte order and the table is exhaustive for what DigitalRFWriter can pass. R2: regular-'
+    "language equality of the C writer's final file-name/sub-directory formats with the reader's formats, inclusion in "
+    'the listing grammar. R3: float-taint analysis of DigitalRFReader._get_file_list and its four callers (no true '
+    'division, float literal or longdouble in the lookup). R4: the extension passes PyArray_DATA/DIMS of the same array, '
+    "per-block pointers in the split loop; _cast_input_array is contiguous + casting='safe' on every path. R5: "
+    'PyArg_ParseTuple units vs C types, Python call-site argument order vs parsed variables, wrapper-to-library argument '
+    'order by parameter name, Py_BuildValue order vs unpacking. R6: the uint64 block index is only used through int(). '
+    "R7: byte-order provenance of the writer's dtype attributes: every dtype the input is cast to on the way to the "
+    'extension carries the byte order that is reported to the library (a complex type built from a format string is '
+    'native). Does NOT decide block cutting / offset arithmetic or the merge of blocks.  R8: the writer-object flag '
+    'tested next to `!file_exists` in both passes of digital_rf_create_rf_data_index (a continuing write gets its own '
+    'index row) is the flag that selects the growing data-set size in digital_rf_create_hdf5_file.')
 TECHNIQUE = ('clang JSON AST + Python ast; concrete evaluation of the dtype table; regular-language algebra on name formats; float-taint; reaching definitions + symbolic expansion of extension arguments; cross-language interface agreement')
 ASSUMPTIONS = ["HDF5 predefined type names encode class, width and order as documented", "numpy dtype.kind/itemsize/byteorder semantics",
                "clang 14 AST and CPython ast are faithful"]
